@@ -203,12 +203,22 @@ def check(ctx: Ctx) -> None:
     ex = expander(add)
     hs = [n for n in walk_no_nested(add.node) if isinstance(n, ast.Call) and norm(n.func) in ('np.hstack', 'np.concatenate', 'np.append')]
     ok = False
-    if len(hs) != 1:
-        ctx.error('C02.d: _add_CP does not join prefix and body with one hstack/concatenate (cannot tell)')
-    h = hs[0]
-    parts = h.args[0].elts if h.args and isinstance(h.args[0], (ast.List, ast.Tuple)) else (h.args[:2] if norm(h.func) == 'np.append' else None)
+    parts = None
+    if len(hs) == 1:
+        h = hs[0]
+        parts = h.args[0].elts if h.args and isinstance(h.args[0], (ast.List, ast.Tuple)) else (h.args[:2] if norm(h.func) == 'np.append' else None)
+    elif not hs:
+        # pre-allocated form: out[:, :cp] = prefix ; out[:, cp:] = body
+        sts = [n for n in walk_no_nested(add.node) if isinstance(n, ast.Assign) and isinstance(n.targets[0], ast.Subscript)
+               and isinstance(n.targets[0].value, ast.Name)]
+        head = [n for n in sts if norm(n.targets[0].slice).replace(' ', '').strip('()') == ':,:self.cp_size']
+        tail = [n for n in sts if norm(n.targets[0].slice).replace(' ', '').strip('()') == ':,self.cp_size:']
+        if len(head) == 1 and len(tail) == 1 and norm(head[0].targets[0].value) == norm(tail[0].targets[0].value):
+            parts = [head[0].value, tail[0].value]
+            hs = [head[0]]
     if parts is None or len(parts) != 2:
-        ctx.error('C02.d: the joined parts of _add_CP are not a two-element literal (cannot tell)')
+        ctx.error('C02.d: _add_CP joins prefix and body neither with one hstack/concatenate of two parts nor by filling the two column '
+                  'ranges of a pre-allocated array (cannot tell)')
     pre, body = (ex(x) for x in parts)
     ok = norm(body) == p and norm(pre).replace(' ', '') == '%s[:,-self.cp_size:]' % p
     ctx.obligation('C02.d', 'OFDM._add_CP', ok, {'hstack': norm(hs[0])[:90] if hs else None})
